@@ -13,7 +13,7 @@ def prop(pid, title, level, units, clauses, explanation, statement_clauses=None,
                   "surroundings": surroundings}
 
 
-prop("C16", "rustfmt never terminates abnormally", "proof",
+prop("C16", "rustfmt never terminates abnormally", "other",
      ["U01", "U02", "U03", "U06", {"unit": "U04", "only": r"does not panic|FormatReportFormatter"}, {"unit": "U07", "only": r"does not panic"}, {"unit": "U09", "only": r"does not panic"}],
      [{"clause": "no arithmetic panic (overflow) in Range::{new,is_empty,contains,intersects,adjacent_to,merge} for any usize", "status": "proved", "by": "U01 (Verus)"},
       {"clause": "no arithmetic panic in FormatLines::{new_line,char,push_err,should_report_error} and the fold (line_len -= 1 never underflows: invariant last_was_space => line_len >= 1) for texts of any length, tab_spaces >= 1", "status": "proved", "by": "U03 (Verus)"},
@@ -26,7 +26,7 @@ prop("C16", "rustfmt never terminates abnormally", "proof",
      statement_clauses={"U01": "it does not panic (C16) — arithmetic overflow is a panic in the test-profile binary", "U02": "it does not panic (C16)", "U03": "it does not panic", "U06": "it does not panic", "U04": "it does not panic", "U07": "it does not panic", "U09": "it does not panic"},
      assumptions=["64-bit target (global size_of usize == 8)"])
 
-prop("C17", "file_lines confines changes to the selected code", "proof",
+prop("C17", "file_lines confines changes to the selected code", "other",
      ["U01", "U02", "U03", {"unit": "U04", "only": r"^format_lines: reported"}],
      [{"clause": "overlapping or adjacent ranges behave as their union (Range::merge / adjacent_to / intersects against the set-of-lines view)", "status": "proved", "by": "U01 (Verus)"},
       {"clause": "normalisation keeps exactly the union; contains_line / intersects / contains_range answer for the union; empty selection selects nothing; order of ranges irrelevant", "status": "bounded", "by": "U02 (native)"},
@@ -70,7 +70,7 @@ prop("C20", "The --backup write protocol never loses the original", "fault_enume
      )
 
 
-prop("C15", "Output is a function of source and configuration only", "proof",
+prop("C15", "Output is a function of source and configuration only", "other",
      ["U05", {"unit": "U23", "only": r"^format_input_inner"}],
      [{"clause": "the session summary (ReportedErrors::add) is a field-wise OR: commutative, associative, idempotent, so the final flags do not depend on the order of the files", "status": "proved", "by": "U05 (Kani, complete)"},
       {"clause": "the exit status of a multi-file invocation is the maximum of the single-file statuses (file and stdin entry points)", "status": "proved", "by": "U05 (Kani, complete)"},
